@@ -63,6 +63,11 @@ def run(tier):
     sources.append(('similar', ['Zone\tTest/Foo-Bar\t1:00\t-\tTST', 'Zone\tTest/Foo_Bar\t2:00\t-\tUST', 'Zone\tTest/Other\t3:00\t-\tVST',
                                 'Rule\tSim\t1995\tmax\t-\tMar\tlastSun\t2:00\t1:00\tD', 'Rule\tSim\t1995\tmax\t-\tOct\tlastSun\t2:00\t0\tS',
                                 'Zone\tTest/With-Rules\t4:00\tSim\tW%sT', 'Zone\tTest/Plain\t5:00\t-\tPLN', 'Link\tTest/Other\tTest/Elsewhere']))
+    # two different rules of one policy whose field values, written one after the other without a separator, give the same
+    # string (month 1 / plain day 15 and month 10 / Monday / day 5): each must keep its own row in every generated table
+    sources.append(('collide', ['Rule\tCol\t1995\tmax\t-\tJan\t15\t2:00\t1:00\tD', 'Rule\tCol\t1995\tmax\t-\tApr\t1\t2:00\t0\tS',
+                                'Rule\tCol\t1995\tmax\t-\tOct\tMon>=5\t2:00\t1:00\tD', 'Rule\tCol\t1995\tmax\t-\tDec\t1\t2:00\t0\tS',
+                                'Zone\tTest/Collide\t6:00\tCol\tC%sT', 'Zone\tTest/Fixed\t7:00\t-\tFXD']))
     runs = []
     pairs = []
     progs = 0
